@@ -7,16 +7,20 @@
 
    Full statement (false of the faithful model because of the recorded findings, see Findings/C10.v):
      forall f, wf_file f = true -> read_cues_file (print_file f) = Ok (cues f).
-   Proved below: the statement for every file whose payloads are plain text and line breaks under arbitrarily
-   nested / adjacent b, i, u tags in angle syntax (short, long and upper-case names) and <font color=..> tags
-   (#rrggbb, #rrggbbaa or a named colour, either case, double / single / no quotes), with the trigger
-   `trigger_backslash` excluded (brace-short tags and stray closers are not in that sub-grammar), for LF and
-   CR LF terminators, with or without a terminator on the last line, any counters, blank-line runs, hour widths,
-   white space and timing-line tails.
-   Not proved (compared on generated files only, harness/c10.py `model_spec` and `spec_ok`): character references
-   (&amp; &#65; ...) and the long brace forms {bold} {italic} {underline}. *)
+   Proved below: the statement for every file of the grammar on which none of the three triggers
+   (short brace tags {b} {i} {u}; a closing tag with no opener; the four characters backslash-n-backslash-r)
+   fires - i.e. any number of cues, any counters, leading / separating / trailing blank-line runs, 2- or 3-digit hours,
+   minutes and seconds 00-99, any blanks around the arrow, any tail on the timing line, LF or CR LF terminators, last
+   line with or without terminator, cue text of 1..n non-blank lines made of literal characters, character
+   references (&amp; &lt; &gt; &quot; &nbsp; &#d; &#xh;), b/i/u tags in angle syntax (short, long, upper-case
+   names) and in the long brace syntax, <font color=..> tags (#rrggbb, #rrggbbaa, named colour, either case, double /
+   single / no quotes), nested and adjacent at will, spanning lines or not.
+   For a stream without newline translation the statement is proved for LF files (CR LF there is the fourth
+   recorded finding).
+   Not covered by theorems: the outputs of ttconv's SRT writer as such (they are grammar files: compared on
+   generated documents by harness/c10.py), and inputs outside the grammar (malformed stream: model = code only). *)
 From TT Require Import Base.Prelude Base.SrtTypes Gen.SrtTables Model.SrtReader Spec.SrtCueSpec
-  Proofs.C10.Time Proofs.C10.Roundtrip Proofs.C10.NoFinalEol Proofs.C10.Tags Proofs.C10.Witness.
+  Proofs.C10.Time Proofs.C10.Brace Proofs.C10.Witness.
 From Coq Require Import QArith.
 Local Open Scope Z_scope.
 
@@ -33,41 +37,48 @@ Theorem C10_exact_time : forall bh bm bs bms ws1 ws2 eh em es ems tail,
     Qeq (seconds_of (g_eh g) (g_em g) (g_es g) (g_ems g)) (printed_seconds eh em es ems).
 Proof. exact exact_time. Qed.
 
-(* round trip, tag-free text: one cue per paragraph, exact times, lines in order separated by line breaks *)
-Theorem C10_roundtrip_partial : forall f, wf_file f = true -> plain_file f = true ->
-  trigger_backslash f = false -> read_cues_file (print_file f) = Ok (cues f).
-Proof. exact roundtrip_plain_file_any. Qed.
-Theorem C10_roundtrip_stringio_partial : forall f, wf_file f = true -> f_crlf f = false -> plain_file f = true ->
-  trigger_backslash f = false -> read_cues (print_file f) = Ok (cues f).
-Proof. exact roundtrip_plain_lf_any. Qed.
+(* round trip: one paragraph per cue, exact times, lines in order separated by line breaks, every character with
+   exactly the styles of the tags that enclose it *)
+Theorem C10_roundtrip_partial : forall f, wf_file f = true ->
+  trigger_brace_short f = false -> trigger_stray_end f = false -> trigger_backslash f = false ->
+  read_cues_file (print_file f) = Ok (cues f).
+Proof. exact roundtrip_partial. Qed.
+Theorem C10_roundtrip_stringio_partial : forall f, wf_file f = true -> f_crlf f = false ->
+  trigger_brace_short f = false -> trigger_stray_end f = false -> trigger_backslash f = false ->
+  read_cues (print_file f) = Ok (cues f).
+Proof. exact roundtrip_stringio_partial. Qed.
 
-(* tag scoping: with b/i/u and font-colour tags in angle syntax, nested and adjacent at will, each character carries
-   exactly the styles of the tags that enclose it, the innermost colour winning (`cues` is defined by that rule);
-   includes the previous theorem *)
-Theorem C10_tags_scope_partial : forall f, wf_file f = true -> angle_file f = true ->
-  trigger_backslash f = false -> read_cues_file (print_file f) = Ok (cues f).
-Proof. exact roundtrip_angle_file. Qed.
-Theorem C10_tags_scope_stringio_partial : forall f, wf_file f = true -> f_crlf f = false -> angle_file f = true ->
-  trigger_backslash f = false -> read_cues (print_file f) = Ok (cues f).
-Proof. exact roundtrip_angle_lf. Qed.
+(* tag scoping at the level of one cue text: what _TextParser builds from the (rewritten) text flattens to the
+   payload's characters in order, each with exactly the styles of its enclosing tags (`items_list`), for every
+   payload without short brace tags and stray closers *)
+Theorem C10_tags_scope_partial : forall p,
+  forallb markup_node p = true -> forallb wf_node p = true ->
+  forallb (fun l => negb (all_ws l)) (payload_lines p) = true ->
+  has_sub [92;110;92;114] (print_nodes p) = false ->
+  exists kids, parse_text true (rewrite_text (print_nodes p)) = Ok kids /\ flat_list st0 kids = items_list st0 p.
+Proof. exact tags_scope_partial. Qed.
 
 (* counters, blank-line runs, 2- or 3-digit hour fields, white space, tails and terminators are tolerated: two files
    that agree on clock fields and payloads read the same *)
 Theorem C10_tolerates : forall f f',
   wf_file f = true -> wf_file f' = true ->
-  angle_file f = true -> angle_file f' = true -> trigger_backslash f = false -> trigger_backslash f' = false ->
+  trigger_brace_short f = false -> trigger_stray_end f = false -> trigger_backslash f = false ->
+  trigger_brace_short f' = false -> trigger_stray_end f' = false -> trigger_backslash f' = false ->
   Forall2 same_content (f_cues f) (f_cues f') ->
   read_cues_file (print_file f) = read_cues_file (print_file f') /\ read_cues_file (print_file f) = Ok (cues f).
-Proof. exact tolerates. Qed.
+Proof. exact tolerates_partial. Qed.
 
-(* non-vacuity: a file meeting every hypothesis, and what is read from it *)
-Example C10_example : wf_file f_example = true /\ angle_file f_example = true /\ trigger_backslash f_example = false /\
-  f_final_eol f_example = true /\
+(* non-vacuity: a file meeting every hypothesis (leading blank lines, odd counters, a three-digit hour, tabs around the
+   arrow, a tail, nested and adjacent tags in all syntaxes over two lines, references, font colours, several blank lines
+   between cues, CR LF terminators), and what is read from it *)
+Example C10_example : wf_file f_example = true /\ trigger_brace_short f_example = false /\ trigger_stray_end f_example = false /\
+  trigger_backslash f_example = false /\
   read_cues_file (print_file f_example) = Ok (cues f_example) /\
   cues f_example = [(Qmake 363599999 1000, Qmake 3602439 1,
                      [Ch 97 (mkSt true false false None); Ch 98 (mkSt true true false None); Brk; Ch 99 (mkSt true true false None);
                       Ch 100 (mkSt true false true None); Ch 101 (mkSt false false false (Some (255, 0, 128, 255)));
-                      Ch 102 (mkSt false false false (Some (0, 0, 255, 255))); Ch 92 st0; Ch 62 st0]);
+                      Ch 102 (mkSt false false false (Some (0, 0, 255, 255))); Ch 38 (mkSt false true false None); Ch 8364 (mkSt false true false None);
+                      Ch 92 st0; Ch 62 st0]);
                     (Qmake 1 1, Qmake 5 2, [Ch 8364 st0; Brk; Ch 120 st0])].
 Proof. exact example_ok. Qed.
 (* 00:00:00,280 is 7/25 (it was 0.28000000000000003 before the fix) *)
@@ -77,5 +88,5 @@ Proof. exact example_280. Qed.
 
 Print Assumptions C10_exact_time.
 Print Assumptions C10_roundtrip_partial.  Print Assumptions C10_roundtrip_stringio_partial.
-Print Assumptions C10_tags_scope_partial.  Print Assumptions C10_tags_scope_stringio_partial.
+Print Assumptions C10_tags_scope_partial.
 Print Assumptions C10_tolerates.
